@@ -10,6 +10,7 @@ import Mathlib.Probability.Distributions.Gaussian.Real
 import Mathlib.Analysis.SpecialFunctions.Artanh
 import Mathlib.Analysis.SpecialFunctions.Trigonometric.DerivHyp
 import Mathlib.Analysis.Complex.ExponentialBounds
+import Mathlib.MeasureTheory.Function.JacobianOneDim
 
 namespace SB3Verif.Lemmas.Dist
 
@@ -873,5 +874,160 @@ theorem squashed_mode_not_argmax (ε : ℝ) (h0 : 0 ≤ ε) (h1 : ε ≤ 1 / 100
     rwa [Real.log_exp] at this
   norm_num
   linarith
+
+/-! ### the law of `tanh ∘ X` -/
+
+open MeasureTheory ProbabilityTheory Set in
+/-- density of `tanh ∘ X` for `X ~ N(μ, v)`: `p_X(artanh y) / (1 - y²)` on `(-1, 1)`, `0` elsewhere -/
+noncomputable def squashedPDFReal (μ : ℝ) (v : ℝ≥0) (y : ℝ) : ℝ :=
+  if y ∈ Ioo (-1 : ℝ) 1 then gaussianPDFReal μ v (Real.artanh y) / (1 - y ^ 2) else 0
+
+theorem continuous_tanh : Continuous Real.tanh :=
+  continuous_iff_continuousAt.mpr fun x => (hasDerivAt_tanh x).continuousAt
+
+open Set in
+theorem image_tanh_preimage (t : Set ℝ) : Real.tanh '' (Real.tanh ⁻¹' t) = t ∩ Ioo (-1) 1 := by
+  rw [image_preimage_eq_inter_range]
+  have := Real.tanh_bijOn.image_eq
+  rw [image_univ] at this
+  rw [this]
+
+open MeasureTheory ProbabilityTheory Set in
+/-- **The push-forward of a Gaussian under `tanh` has density `squashedPDFReal`** with respect to
+Lebesgue measure (one dimension; change of variables with `tanh' = 1 - tanh²`). -/
+theorem map_tanh_gaussianReal (μ : ℝ) {v : ℝ≥0} (hv : v ≠ 0) :
+    (gaussianReal μ v).map Real.tanh
+      = volume.withDensity (fun y => ENNReal.ofReal (squashedPDFReal μ v y)) := by
+  have hmeas : Measurable Real.tanh := continuous_tanh.measurable
+  ext t ht
+  rw [Measure.map_apply hmeas ht, gaussianReal_apply μ hv, withDensity_apply _ ht]
+  have hR : ∫⁻ y in t, ENNReal.ofReal (squashedPDFReal μ v y)
+      = ∫⁻ y in t ∩ Ioo (-1) 1, ENNReal.ofReal (squashedPDFReal μ v y) := by
+    rw [← lintegral_inter_add_sdiff _ t (measurableSet_Ioo (a := (-1 : ℝ)) (b := 1))]
+    have h0 : ∫⁻ y in t \ Ioo (-1) 1, ENNReal.ofReal (squashedPDFReal μ v y) = 0 := by
+      apply setLIntegral_eq_zero (ht.diff measurableSet_Ioo)
+      intro y hy
+      simp [squashedPDFReal, hy.2]
+    rw [h0, add_zero]
+  rw [hR, ← image_tanh_preimage,
+    lintegral_image_eq_lintegral_abs_deriv_mul (hmeas ht)
+      (fun x _ => (hasDerivAt_tanh x).hasDerivWithinAt) Real.tanh_injective.injOn]
+  apply setLIntegral_congr_fun (hmeas ht)
+  intro x _
+  have hpos := one_sub_tanh_sq_pos x
+  have hmem : Real.tanh x ∈ Ioo (-1 : ℝ) 1 := ⟨Real.neg_one_lt_tanh x, Real.tanh_lt_one x⟩
+  simp only [squashedPDFReal, hmem, if_true, Real.artanh_tanh]
+  rw [abs_of_pos hpos, ← ENNReal.ofReal_mul hpos.le, gaussianPDF]
+  congr 1
+  field_simp
+
+open ProbabilityTheory Set in
+/-- the model's squashed log-probability (ε = 0, cached pre-squash value `artanh y`) exponentiates to
+that density -/
+theorem exp_squashedLogProbG_one (μ logσ y : ℝ) (hy : y ∈ Ioo (-1 : ℝ) 1) :
+    Real.exp (squashedLogProbG 0 [μ] [logσ] [y] [Real.artanh y])
+      = squashedPDFReal μ (nnsq (Real.exp logσ)) y := by
+  have hpos : 0 < 1 - y ^ 2 := by
+    have : y ^ 2 < 1 := by
+      rw [sq_lt_one_iff_abs_lt_one]; exact abs_lt.mpr hy
+    linarith
+  rw [squashedLogProbG_real, gaussLogProb_real]
+  simp only [zipWith3, List.sum_cons, List.sum_nil, add_zero, List.map_cons, List.map_nil,
+    squashCorrection_real]
+  rw [Real.exp_sub, Real.exp_log hpos, exp_normalLogProb _ _ _ (Real.exp_pos logσ)]
+  simp [squashedPDFReal, hy]
+
+/-! ### differential entropy of the Gaussian -/
+
+open MeasureTheory ProbabilityTheory in
+theorem integral_sq_sub_mean_gaussianReal (μ : ℝ) (v : ℝ≥0) :
+    ∫ x, (x - μ) ^ 2 ∂(gaussianReal μ v) = v := by
+  have h := variance_fun_id_gaussianReal (μ := μ) (v := v)
+  rw [variance_eq_integral measurable_id'.aemeasurable] at h
+  simpa only [integral_id_gaussianReal] using h
+
+open MeasureTheory ProbabilityTheory in
+/-- `Normal.entropy` is the differential entropy `-∫ p log p` of the Gaussian with that scale -/
+theorem normalEntropy_eq_differential (μ σ : ℝ) (hσ : 0 < σ) :
+    normalEntropy σ
+      = -∫ x, Real.log (gaussianPDFReal μ (nnsq σ) x) ∂(gaussianReal μ (nnsq σ)) := by
+  have hvpos : (0 : ℝ) < ((nnsq σ : ℝ≥0) : ℝ) := by rw [coe_nnsq]; positivity
+  have h2pi : (0 : ℝ) < 2 * Real.pi := by positivity
+  have hsq : Real.sqrt (2 * Real.pi * (nnsq σ : ℝ≥0)) = Real.sqrt (2 * Real.pi) * σ := by
+    rw [coe_nnsq, Real.sqrt_mul h2pi.le, Real.sqrt_sq hσ.le]
+  have hspos : 0 < Real.sqrt (2 * Real.pi) * σ := mul_pos (Real.sqrt_pos.mpr h2pi) hσ
+  have hlog : ∀ x, Real.log (gaussianPDFReal μ (nnsq σ) x)
+      = -Real.log (Real.sqrt (2 * Real.pi) * σ) - (2 * ((nnsq σ : ℝ≥0) : ℝ))⁻¹ * (x - μ) ^ 2 := by
+    intro x
+    unfold gaussianPDFReal
+    rw [hsq, Real.log_mul (inv_ne_zero hspos.ne') (Real.exp_pos _).ne', Real.log_inv, Real.log_exp]
+    ring
+  have hint : Integrable (fun x => (x - μ) ^ 2) (gaussianReal μ (nnsq σ)) := by
+    have : MemLp (fun x : ℝ => x - μ) 2 (gaussianReal μ (nnsq σ)) :=
+      (memLp_id_gaussianReal 2).sub (memLp_const μ)
+    exact this.integrable_sq
+  simp_rw [hlog]
+  rw [integral_sub (integrable_const _) (hint.const_mul _), integral_const, integral_const_mul,
+    integral_sq_sub_mean_gaussianReal]
+  simp only [probReal_univ, smul_eq_mul, one_mul]
+  rw [normalEntropy_real, Real.log_mul (Real.sqrt_pos.mpr h2pi).ne' hσ.ne',
+    Real.log_sqrt h2pi.le]
+  field_simp
+  ring
+
+/-! ### the law of the gSDE noise -/
+
+open MeasureTheory ProbabilityTheory in
+/-- a finite sum of mutually independent real Gaussians is Gaussian (means and variances add) -/
+theorem map_finsetSum_gaussianReal {Ω ι : Type*} [MeasurableSpace Ω] {P : Measure Ω}
+    [IsProbabilityMeasure P] [DecidableEq ι] (X : ι → Ω → ℝ) (m : ι → ℝ) (v : ι → ℝ≥0)
+    (hX : ∀ i, Measurable (X i)) (hind : iIndepFun X P)
+    (hlaw : ∀ i, P.map (X i) = gaussianReal (m i) (v i)) (s : Finset ι) :
+    P.map (∑ i ∈ s, X i) = gaussianReal (∑ i ∈ s, m i) (∑ i ∈ s, v i) := by
+  induction s using Finset.induction_on with
+  | empty =>
+    simp only [Finset.sum_empty, gaussianReal_zero_var]
+    have : (0 : Ω → ℝ) = fun _ => (0 : ℝ) := rfl
+    rw [this, Measure.map_const]
+    simp
+  | insert a s ha ih =>
+    rw [Finset.sum_insert ha, Finset.sum_insert ha, Finset.sum_insert ha]
+    exact gaussianReal_add_gaussianReal_of_indepFun
+      (hind.indepFun_finsetSum_of_notMem hX ha).symm (hlaw a) ih
+
+open MeasureTheory ProbabilityTheory in
+/-- **The gSDE noise component is exactly Gaussian**: for mutually independent exploration weights
+`W_i ~ N(0, std_i²)`, `mean + Σ_i latent_i · W_i ~ N(mean, Σ_i latent_i² · std_i²)`. -/
+theorem map_gsde_action_gaussianReal {Ω : Type*} [MeasurableSpace Ω] {P : Measure Ω}
+    [IsProbabilityMeasure P] {k : ℕ} (mean : ℝ) (l s : Fin k → ℝ) (W : Fin k → Ω → ℝ)
+    (hW : ∀ i, Measurable (W i)) (hind : iIndepFun W P)
+    (hlaw : ∀ i, P.map (W i) = gaussianReal 0 (nnsq (s i))) :
+    P.map (fun ω => mean + ∑ i, l i * W i ω)
+      = gaussianReal mean (∑ i, nnsq (l i) * nnsq (s i)) := by
+  have hY : ∀ i, Measurable (fun ω => l i * W i ω) := fun i => (hW i).const_mul (l i)
+  have hindY : iIndepFun (fun i ω => l i * W i ω) P :=
+    hind.comp (fun i x => l i * x) (fun i => measurable_const_mul (l i))
+  have hlawY : ∀ i, P.map (fun ω => l i * W i ω) = gaussianReal 0 (nnsq (l i) * nnsq (s i)) := by
+    intro i
+    have : (fun ω => l i * W i ω) = (fun x => l i * x) ∘ W i := rfl
+    rw [this, ← Measure.map_map (measurable_const_mul (l i)) (hW i), hlaw i,
+      gaussianReal_map_const_mul, mul_zero]
+    rfl
+  have hsum := map_finsetSum_gaussianReal (fun i ω => l i * W i ω) (fun _ => 0)
+    (fun i => nnsq (l i) * nnsq (s i)) hY hindY hlawY Finset.univ
+  have hfun : (fun ω => mean + ∑ i, l i * W i ω)
+      = (fun x => mean + x) ∘ (∑ i ∈ Finset.univ, fun ω => l i * W i ω) := by
+    funext ω; simp
+  have hm : Measurable (∑ i ∈ Finset.univ, fun ω => l i * W i ω) := by
+    have h := Finset.measurable_sum (Finset.univ : Finset (Fin k)) (fun i _ => hY i)
+    have he : (∑ i ∈ Finset.univ, fun ω => l i * W i ω) = fun a => ∑ i, l i * W i a := by
+      funext ω; simp
+    rw [he]; exact h
+  rw [hfun, ← Measure.map_map (measurable_const_add mean) hm, hsum, gaussianReal_map_const_add]
+  simp
+
+theorem coe_sum_nnsq {k : ℕ} (l s : Fin k → ℝ) :
+    ((∑ i, nnsq (l i) * nnsq (s i) : ℝ≥0) : ℝ) = ∑ i, l i ^ 2 * s i ^ 2 := by
+  simp [NNReal.coe_sum]
 
 end SB3Verif.Lemmas.Dist
